@@ -89,6 +89,14 @@ def run(tier, seed):
         for os_ in [(), ("-fwide-types",), ("-fcompound-names", "-findirect-choice")]:
             jobs.append(("valid", itext, os_, "IOC:" + nm))
 
+    # identical (module text, option set) pairs reached through different families are compiled once
+    seenjobs, ujobs = set(), []
+    for j in jobs:
+        if (j[1], j[2]) not in seenjobs:
+            seenjobs.add((j[1], j[2]))
+            ujobs.append(j)
+    jobs = ujobs
+
     def one(job):
         kind, text, opts, name = job
         h = hashlib.sha1((text + " ".join(opts)).encode("utf-8", "surrogateescape")).hexdigest()[:12]
